@@ -18,7 +18,8 @@ RULE = ('Hypothesis cases: n in 1..5 distinct keys, m in 0..n (+ a few m > n), a
         'make_single_sig_witness through run_auth_scripts. Oracle: specification predicate on the generator\'s ground '
         'truth (every item well-formed, permitted, valid under a listed key, signers pairwise distinct), never true '
         'otherwise, verdict invariant under every order. non-trivial = the multiset contains a duplicate / flag '
-        'variant / outsider / corruption, or m = n, or a non-identity order; distinct by (n, m, item kinds, orders).')
+        'variant / outsider / corruption, or m = n, or a non-identity order; distinct by (n, m, item kinds, orders).'
+        ' Also witnesses shorter than the quorum: the instruction asks for 1-2 more signatures than supplied (nothing or foreign items below them): never true.')
 ASSUMPTIONS = ['keys are distinct, so a signature is valid under at most one listed key (greedy matching is exact)',
                'a lock that lists the same key twice is outside the quantifier (n distinct keys): there one signer can confirm two slots with '
                'two encodings of one signature (64 bytes / 64 bytes + flag byte 00)',
